@@ -356,14 +356,14 @@ func indexInRange(c *Ctx, f *ssa.Function, at ssa.Instruction, base, idx, lo, hi
 	// slice s[lo:hi]
 	need := int64(0)
 	if lo != nil {
-		k, ok := constInt(lo)
+		k, ok := boundConstAt(lo, at)
 		if !ok {
 			return false, "non-constant lower slice bound without a recognised bound"
 		}
 		need = k
 	}
 	if hi != nil {
-		k, ok := constInt(hi)
+		k, ok := boundConstAt(hi, at)
 		if !ok {
 			return false, "non-constant upper slice bound without a recognised bound"
 		}
@@ -1012,4 +1012,85 @@ func nonNilAddr(addr ssa.Value) bool {
 		_ = x
 	}
 	return false
+}
+
+// boundConstAt: the value of a slice bound at `at` when it is a constant, or
+// len(x) + constant for a string x that equals a constant string of one
+// length on every path to `at` (the case of a switch on x).
+func boundConstAt(v ssa.Value, at ssa.Instruction) (int64, bool) {
+	if k, ok := constInt(v); ok {
+		return k, true
+	}
+	lenOf := func(v ssa.Value) (int64, bool) {
+		call, ok := v.(*ssa.Call)
+		if !ok {
+			return 0, false
+		}
+		b, ok := call.Call.Value.(*ssa.Builtin)
+		if !ok || b.Name() != "len" || len(call.Call.Args) != 1 {
+			return 0, false
+		}
+		return stringLenAtEntry(call.Call.Args[0], at.Block(), map[*ssa.BasicBlock]bool{})
+	}
+	if l, ok := lenOf(v); ok {
+		return l, true
+	}
+	if bo, ok := v.(*ssa.BinOp); ok && (bo.Op == token.ADD || bo.Op == token.SUB) {
+		if k, ok := constInt(bo.Y); ok {
+			if l, ok := lenOf(bo.X); ok {
+				if bo.Op == token.SUB {
+					return l - k, true
+				}
+				return l + k, true
+			}
+		}
+		if k, ok := constInt(bo.X); ok && bo.Op == token.ADD {
+			if l, ok := lenOf(bo.Y); ok {
+				return l + k, true
+			}
+		}
+	}
+	return 0, false
+}
+
+// stringLenAtEntry: x == <constant string> holds on every edge into b (directly
+// or further up), all constants having one length.
+func stringLenAtEntry(x ssa.Value, b *ssa.BasicBlock, seen map[*ssa.BasicBlock]bool) (int64, bool) {
+	if seen[b] || len(b.Preds) == 0 {
+		return 0, false
+	}
+	seen[b] = true
+	length, have := int64(0), false
+	for _, p := range b.Preds {
+		l, ok := int64(0), false
+		if len(p.Instrs) > 0 && len(p.Succs) == 2 && p.Succs[0] != p.Succs[1] {
+			if ifi, isIf := p.Instrs[len(p.Instrs)-1].(*ssa.If); isIf {
+				if bo, isBo := ifi.Cond.(*ssa.BinOp); isBo && (bo.Op == token.EQL || bo.Op == token.NEQ) {
+					var cs string
+					var isC bool
+					switch {
+					case bo.X == x:
+						cs, isC = constString(bo.Y)
+					case bo.Y == x:
+						cs, isC = constString(bo.X)
+					}
+					eqEdge := p.Succs[0]
+					if bo.Op == token.NEQ {
+						eqEdge = p.Succs[1]
+					}
+					if isC && eqEdge == b {
+						l, ok = int64(len(cs)), true
+					}
+				}
+			}
+		}
+		if !ok {
+			l, ok = stringLenAtEntry(x, p, seen)
+		}
+		if !ok || (have && l != length) {
+			return 0, false
+		}
+		length, have = l, true
+	}
+	return length, have
 }
